@@ -36,11 +36,12 @@ def main():
     ap.add_argument("--checks", default=None)
     ap.add_argument("--tier", default="quick")
     ap.add_argument("--no-tests", action="store_true")
+    ap.add_argument("--tag", default="")
     a = ap.parse_args()
     src = Path(a.src)
     patch = src / ("m%s.diff" % a.k)
     demo = src / ("m%s_demo.py" % a.k)
-    out = VERIF / "seeded" / ("%s-m%s" % (a.pid, a.k))
+    out = VERIF / "seeded" / ("%s-%sm%s" % (a.pid, a.tag, a.k))
     wt = Path("/dev/shm/vfy-seed-%d" % os.getpid())
     meta = {"property": a.pid, "source": "independent sub-agent given only the property record and a scratch worktree", "patch": "patch.diff", "demo": "demo.py", "ran": []}
     rc, o = sh("git -C /repo worktree add -q --detach %s HEAD" % wt)
